@@ -114,7 +114,7 @@ def check(ctx):
                 if name in ("OrdinalAxis", "NonLinearAxis", "ParameterAxis"):
                     vsets = ["ints", "floats", "np1d", "pairs", "np2d"]
                 for vs in vsets:
-                    for n in range(1, 6):
+                    for n in range(1, 6 if ctx.quick else 8):
                         extras = [None]
                         if name == "AxisAlignedTiltAxis":
                             extras = [{"direction": "x"}, {"direction": "y"}]
@@ -131,14 +131,21 @@ def check(ctx):
                         cases.append({"cls": name, "common": common, "linear": lin, "extra": ex})
             else:
                 cases.append({"cls": name, "common": common})
+    if not ctx.quick:
+        cases = [dict(c, tier="thorough") for c in cases]
     ctx.extra["axis_classes"] = classes
     ctx.run(cases, "run_case", rule="one case per (axis class, field values, value sequence); inside: 2 round trips, all slices "
             "(start, stop in -n-1..n+1 or None, step in {None,1,2,3,-1,-2}), all integer indices, index lists, masks, concatenation "
             "with every same-class partner length 1..3, coordinates n = 1..6; non-trivial = ordinal axis with >= 2 values or linear axis")
 
 
+QUICK = [True]
+
+
 def run_case(case):
     from abtem.core import axes as A
+
+    QUICK[0] = case.get("tier", "quick") == "quick"
 
     viol = []
     tr = 0
@@ -173,7 +180,7 @@ def run_case(case):
             if not same(o.values, c):
                 bad("linear/to-ordinal", "to_ordinal_axis(%d).values = %r" % (n, o.values))
         # a sliced linear axis must describe exactly the selected items: a[s].coordinates(len(range(n)[s])) == a.coordinates(n)[s]
-        for n in range(1, 6):
+        for n in range(1, 6 if QUICK[0] else 8):
             full = a.coordinates(n)
             for sl in [(b0, b1, st) for b0 in [None] + list(range(0, n + 1)) for b1 in [None] + list(range(0, n + 2)) for st in (None, 1, 2, 3)]:
                 sl_ = slice(*sl)
